@@ -335,6 +335,8 @@ def extra_coverage(results):
     return {"lines_delivered": lines, "lines_logged": exp, "drops_reported": sum(v.get("reported", 0) for _, _, v in results),
             "max_unwritten_seen": max([v.get("worst_unwritten", 0) for _, _, v in results] or [0]),
             "hook_events_replayed": ev,
+            "late_shutdown_scenarios": sum(1 for s, _, _ in results if s.get("family") == "late"),
+            "late_shutdown_precondition_unmet": sum(1 for _, t, _ in results if t.get("late_precondition_unmet")),
             "linearisation_replay": "on (trace hooks present in the tree)" if ev else "off (no trace hooks in the tree: accepts = outside-visible model invariants only)"}
 
 
